@@ -31,10 +31,30 @@ func init() { scenarioRunners["loop"] = runLoopScenario }
 const lMaxConns = 5
 
 var (
-	lErrClosing   = fmt.Errorf("lacc: %w", net.ErrClosed)
-	lErrAccept    = errors.New("lacc: accept failure")
-	lErrTransport = errors.New("lconn: transport failure")
+	lErrClosing = fmt.Errorf("lacc: %w", net.ErrClosed)
+	lErrAccept  = errors.New("lacc: accept failure")
+	// an accepter failure that calls itself temporary (a net.Error with Temporary() and Timeout() true, as a
+	// *net.OpError wrapping EMFILE or a deadline does): to Loop it is an accepter failure like any other
+	lErrAcceptTemp error = lTempErr{}
+	lErrTransport        = errors.New("lconn: transport failure")
 )
+
+type lTempErr struct{}
+
+func (lTempErr) Error() string   { return "lacc: temporary accept failure" }
+func (lTempErr) Temporary() bool { return true }
+func (lTempErr) Timeout() bool   { return true }
+
+var _ net.Error = lTempErr{}
+
+// otherAcceptErr alternates (per scenario) between the plain and the "temporary" accepter failure.
+func (r *loopRun) otherAcceptErr() error {
+	r.nOther++
+	if (r.nOther+r.otherBase)%2 == 0 {
+		return lErrAcceptTemp
+	}
+	return lErrAccept
+}
 
 // ---------------------------------------------------------------- scheduler
 
@@ -398,10 +418,11 @@ type lconnState struct {
 }
 
 type loopRun struct {
-	log    *logger
-	sc     *lsched
-	g      *rng
-	policy string
+	nOther, otherBase int // which kind of "other" accepter failure comes next
+	log               *logger
+	sc                *lsched
+	g                 *rng
+	policy            string
 
 	mu       sync.Mutex
 	nsvc     int
@@ -593,7 +614,7 @@ func (r *loopRun) envAccept() {
 func (r *loopRun) envAerr(other bool) {
 	if other {
 		r.log.item("env\taerr\tother")
-		r.acc.ch <- laccItem{err: lErrAccept}
+		r.acc.ch <- laccItem{err: r.otherAcceptErr()}
 	} else {
 		r.log.item("env\taerr\tclosing")
 		r.acc.ch <- laccItem{err: lErrClosing}
@@ -750,7 +771,7 @@ func (r *loopRun) raceGroup(n int) {
 			acts = append(acts, act{3, func() {
 				if g.chance(1, 2) {
 					r.log.item("env\taerr\tother")
-					r.acc.ch <- laccItem{err: lErrAccept}
+					r.acc.ch <- laccItem{err: r.otherAcceptErr()}
 				} else {
 					r.log.item("env\taerr\tclosing")
 					r.acc.ch <- laccItem{err: lErrClosing}
@@ -972,6 +993,7 @@ func runLoopScenario(t *testing.T, fam string, seed uint64, idx int, out *bufio.
 			policy:    policy,
 			acc:       &lacc{ch: make(chan laccItem, 16)},
 			accepting: true,
+			otherBase: idx,
 		}
 		var perturb atomic.Uint64
 		perturb.Store(g.next())
@@ -1020,7 +1042,7 @@ func runLoopScenario(t *testing.T, fam string, seed uint64, idx int, out *bufio.
 			err := server.Loop(ctx, r.acc, r.newService, &server.LoopOptions{ServerOptions: &jrpc2.ServerOptions{Concurrency: 4}})
 			v := "nil"
 			if err != nil {
-				if err == lErrAccept {
+				if err == lErrAccept || err == lErrAcceptTemp {
 					v = "err"
 				} else {
 					v = "other:" + hexf([]byte(err.Error()))
@@ -1044,7 +1066,7 @@ func runLoopScenario(t *testing.T, fam string, seed uint64, idx int, out *bufio.
 			switch preErr {
 			case 0:
 				r.log.item("env\taerr\tother")
-				r.acc.ch <- laccItem{err: lErrAccept}
+				r.acc.ch <- laccItem{err: r.otherAcceptErr()}
 				r.accepting = false
 			case 1:
 				r.log.item("env\taerr\tclosing")
